@@ -11,8 +11,8 @@ ID = "C18"
 QUICK_N = 2400
 THOROUGH_N = 40000
 SHARD = 800
-COQ_PRELUDE = "From MV Require Import Model.AlpnPrelude.\nOpen Scope N_scope.\n"
-TRANSLATORS = ["alpn_select"]
+COQ_PRELUDE = "From MV Require Import Model.AlpnPrelude Model.Alpn.\nOpen Scope N_scope.\n"
+TRANSLATORS = ["alpn_select", "client_tls_reset"]
 ALLOWED_AXIOMS = []
 RULE = ("Both tiers: the EXHAUSTIVE class sweep (every offer list of length <= 4 over the 6 classes h2, h3, http/1.1, "
         "http/1.0, http/0.9, unknown(h2c) = 1555 lists x server_alpn in {None, empty, 6 classes} x client_alpn in {None, "
@@ -80,6 +80,10 @@ def _offers(rng, valid=False):
     return l
 
 
+def _valid_offers(rng):
+    return [x for x in _offers(rng, valid=True) if 0 < len(x) < 256]
+
+
 def _opt_alpn(rng, offers, http2, p_none, p_reach):
     r = rng.random()
     if r < p_none:
@@ -104,27 +108,47 @@ def gen(rng, n, tier):
     for _ in range(n):
         r = rng.random()
         h = rng.chance(0.5)
-        if r < 0.45:
+        if r < 0.40:
             o = _offers(rng)
             s = _opt_alpn(rng, o, h, 0.2, 0.5)
             c = _opt_alpn(rng, o, h, 0.65, 0.15)
             out.append({"k": "g", "o": [hx(x) for x in o], "s": None if s is None else hx(s),
                         "c": None if c is None else hx(c), "h": h})
-        elif r < 0.65:
+        elif r < 0.55:
             o = _offers(rng)
             pk = rng.weighted([(3, "none"), (2, "list"), (2, "tuple")])
             pre = None
             if pk != "none":
                 pre = [hx(x) for x in (_offers(rng) if rng.chance(0.6) else [])]
             out.append({"k": "u", "pre": pre, "pk": pk, "o": [hx(x) for x in o], "h": h})
-        else:
-            o = [x for x in _offers(rng, valid=True) if 0 < len(x) < 256]
-            nl = rng.weighted([(1, 0), (1, 1), (5, 2), (2, 3), (2, 4)])
-            l0 = rng.weighted([(3, "http"), (1, "transparent"), (1, "obj")])
+        elif r < 0.80:
+            o = _valid_offers(rng)
+            nl = rng.weighted([(1, 0), (1, 1), (4, 2), (4, 3), (2, 4), (1, 5)])
+            ls = []
+            for i in range(nl):
+                if i == 0:
+                    ls.append(rng.weighted([(4, "http"), (1, "transparent"), (1, "obj")]))
+                else:
+                    ls.append(rng.weighted([(3, "tls"), (3, "obj")]) if i == 1 else rng.weighted([(1, "tls"), (4, "obj")]))
             s = _opt_alpn(rng, o, h, 0.3, 0.5)
             c = _opt_alpn(rng, o, h, 0.8, 0.1)
-            out.append({"k": "h", "n": nl, "l0": l0, "o": [hx(x) for x in o], "sa": None if s is None else hx(s),
+            out.append({"k": "h", "ls": ls, "o": [hx(x) for x in o], "sa": None if s is None else hx(s),
                         "ca": None if c is None else hx(c), "h": h})
+        elif r < 0.95:
+            # nested client TLS through the real layers (secure web proxy and other modes)
+            oo = _valid_offers(rng)
+            if rng.chance(0.6):
+                oo = rng.choice([[HTTP11], [H2, HTTP11], [HTTP11, H2], [b"http/1.0"], [H2], [b"foo", HTTP11]])
+            io = _valid_offers(rng)
+            if rng.chance(0.5):
+                io = rng.choice([[H2, HTTP11], [HTTP11, H2], [H2], [b"h3", H2, HTTP11], [H2, b"http/1.0"]])
+            s = _opt_alpn(rng, io, h, 0.15, 0.7)
+            out.append({"k": "n", "stack": rng.weighted([(3, "real"), (2, "bare"), (1, "transparent")]),
+                        "oo": [hx(x) for x in oo], "io": [hx(x) for x in io], "sa": None if s is None else hx(s), "h": h})
+        else:
+            a = _opt_alpn(rng, [], h, 0.3, 0.0)
+            out.append({"k": "i", "tls": rng.chance(0.6), "a": None if a is None else hx(a),
+                        "o": [hx(x) for x in _offers(rng)]})
     return out
 
 
@@ -136,19 +160,24 @@ def setup_impl():
     if _S:
         return
     from mitmproxy import connection, tls
-    from mitmproxy.addons import tlsconfig
+    import inspect
+    from mitmproxy.addons import next_layer, proxyserver, tlsconfig
+    from mitmproxy.proxy import commands, events, layers
     from mitmproxy.proxy import context
     from mitmproxy.proxy.layers import modes
     from mitmproxy.test import taddons
     from OpenSSL import SSL
     ta = tlsconfig.TlsConfig()
-    cm = taddons.context(ta)
+    cm = taddons.context(ta, next_layer.NextLayer(), proxyserver.Proxyserver())  # the latter two only for their options
     tctx = cm.__enter__()
     confdir = tempfile.mkdtemp(prefix="verif-C18-", dir=os.environ.get("VERIF_TMP", None))
     atexit.register(shutil.rmtree, confdir, True)
-    tctx.configure(ta, confdir=confdir)
+    tctx.configure(ta, confdir=confdir, connection_strategy="eager")
+    # which variant of the secure-web-proxy test does this tree contain (see Model/Alpn.v is_outer)
+    fixed = "ClientTLSLayer" in inspect.getsource(tlsconfig.TlsConfig.tls_start_client)
     _S.update(ta=ta, tctx=tctx, cm=cm, tlsconfig=tlsconfig, tls=tls, connection=connection, context=context,
-              modes=modes, SSL=SSL, http2=None, up={})
+              modes=modes, SSL=SSL, http2=None, up={}, fixed=fixed, next_layer=next_layer, commands=commands,
+              events=events, layers=layers)
 
 
 def _set_http2(h):
@@ -212,13 +241,153 @@ def _call(offers, s, c, h):
     return {"t": "weird", "repr": type(r).__name__}
 
 
+def _build_stack(ctx, kinds):
+    """context.layers from a list of kinds; real mode layers and real ClientTLSLayer objects register themselves"""
+    for i, k in enumerate(kinds):
+        if k == "http":
+            _S["modes"].HttpProxy(ctx)
+        elif k == "transparent":
+            _S["modes"].TransparentProxy(ctx)
+        elif k == "tls" and i > 0:
+            _S["layers"].ClientTLSLayer(ctx)
+        else:
+            ctx.layers.append(object())
+    assert len(ctx.layers) == len(kinds)
+
+
+def _kinds(layers_):
+    out = []
+    for x in layers_:
+        out.append("http" if isinstance(x, _S["modes"].HttpProxy) else
+                   "tls" if isinstance(x, _S["layers"].ClientTLSLayer) else "obj")
+    return out
+
+
+def _tls_client(offers):
+    SSL = _S["SSL"]
+    cctx = SSL.Context(SSL.TLS_CLIENT_METHOD)
+    cctx.set_verify(SSL.VERIFY_NONE)
+    if offers:
+        cctx.set_alpn_protos(offers)
+    cli = SSL.Connection(cctx)
+    cli.set_connect_state()
+    cli.set_tlsext_host_name(SNI.encode())
+    return cli
+
+
+def _drive(top, cli, conn):
+    """Handshake between a pyOpenSSL client and the REAL layer `top`; hooks go to the real TlsConfig addon.
+    -> (ok, info) where info has the layer kinds and AppData seen when tls_start_client ran."""
+    S, SSL = _S, _S["SSL"]
+    info = {"kinds": None, "ad_c": "unset", "err": None}
+
+    def feed(event):
+        try:
+            cmds = list(top.handle_event(event))
+        except Exception as e:
+            # e.g. the HTTP layer above a proxy-facing TLS layer that negotiated h3 (known finding) crashes when
+            # started; the ALPN outcome is already fixed then.  A failure before that shows as an incomplete handshake.
+            info["child_exc"] = type(e).__name__
+            return
+        for cmd in cmds:
+            if isinstance(cmd, S["commands"].SendData):
+                cli.bio_write(cmd.data)
+            elif isinstance(cmd, S["commands"].StartHook):
+                if cmd.name == "tls_start_client":
+                    info["kinds"] = _kinds(cmd.data.context.layers)
+                fn = getattr(S["ta"], cmd.name, None)
+                if fn:
+                    fn(*cmd.args())
+                if cmd.name == "tls_start_client" and cmd.data.ssl_conn is not None:
+                    ca = cmd.data.ssl_conn.get_app_data()["client_alpn"]
+                    info["ad_c"] = None if ca is None else hx(ca)
+                if cmd.blocking:
+                    feed(S["events"].HookCompleted(cmd))
+            elif isinstance(cmd, S["commands"].Log):
+                pass
+            else:
+                info["err"] = info["err"] or type(cmd).__name__
+
+    feed(S["events"].Start())
+    done = False
+    for _ in range(20):
+        if not done:
+            try:
+                cli.do_handshake()
+                done = True
+            except SSL.WantReadError:
+                pass
+            except Exception as e:
+                info["err"] = info["err"] or type(e).__name__
+                break
+        try:
+            data = cli.bio_read(65536)
+        except SSL.WantReadError:
+            data = b""
+        if data:
+            feed(S["events"].DataReceived(conn, data))
+        elif done:
+            break
+    return done and info["err"] is None, info
+
+
+def _nested(case):
+    S = _S
+    _set_http2(case["h"])
+    cl = S["connection"].Client(peername=("192.0.2.1", 51234), sockname=("192.0.2.2", 8080), timestamp_start=0,
+                                state=S["connection"].ConnectionState.OPEN)
+    ctx = S["context"].Context(cl, S["tctx"].options)
+    if case["stack"] == "real":
+        S["modes"].HttpProxy(ctx)
+        outer = S["next_layer"].NextLayer._setup_explicit_http_proxy(ctx, b"\x16\x03\x01\x02\x00\x01")
+    elif case["stack"] == "bare":
+        S["modes"].HttpProxy(ctx)
+        outer = S["layers"].ClientTLSLayer(ctx)
+    else:
+        S["modes"].TransparentProxy(ctx)
+        outer = S["layers"].ClientTLSLayer(ctx)
+    oo = [unhx(x) for x in case["oo"]]
+    io = [unhx(x) for x in case["io"]]
+    cli = _tls_client(oo)
+    ok_o, info_o = _drive(outer, cli, cl)
+    res = {"ok_o": ok_o, "err": info_o["err"], "kinds_o": info_o["kinds"],
+           "neg_o": hx(cli.get_alpn_proto_negotiated()) if ok_o else None,
+           "alpn_o": None if cl.alpn is None else hx(cl.alpn)}
+    # CONNECT -> tunnelled connection: forked context, upstream TLS already established with server.alpn = sa
+    ictx = ctx.fork()
+    ictx.server = S["connection"].Server(address=("example.com", 443))
+    S["layers"].ServerTLSLayer(ictx)
+    ictx.server.state = S["connection"].ConnectionState.OPEN
+    ictx.server.timestamp_tls_setup = 1.0
+    ictx.server.alpn = None if case["sa"] is None else unhx(case["sa"])
+    inner = S["layers"].ClientTLSLayer(ictx)          # the REAL __init__ on a client carrying outer-TLS state
+    res["alpn_init"] = None if cl.alpn is None else hx(cl.alpn)
+    res["offers_init"] = [hx(bytes(x)) for x in cl.alpn_offers]
+    cli2 = _tls_client(io)
+    ok_i, info_i = _drive(inner, cli2, cl)
+    res.update({"ok_i": ok_i, "err": res["err"] or info_i["err"], "kinds_i": info_i["kinds"], "ad_c": info_i["ad_c"],
+                "neg_i": hx(cli2.get_alpn_proto_negotiated()) if ok_i else None,
+                "up": _hexlist(_upstream_offers(io, case["h"]))})
+    return res
+
+
+def _init_only(case):
+    S = _S
+    ctx = _ctx()
+    S["modes"].TransparentProxy(ctx)
+    ctx.client.tls = case["tls"]
+    ctx.client.alpn = None if case["a"] is None else unhx(case["a"])
+    ctx.client.alpn_offers = [unhx(x) for x in case["o"]]
+    S["layers"].ClientTLSLayer(ctx)
+    return {"tls": bool(ctx.client.tls), "a": None if ctx.client.alpn is None else hx(ctx.client.alpn),
+            "o": [hx(bytes(x)) for x in ctx.client.alpn_offers]}
+
+
 def _handshake(case):
     S = _S
     _set_http2(case["h"])
     ctx = _ctx()
-    l0 = {"http": lambda: S["modes"].HttpProxy(ctx), "transparent": lambda: S["modes"].TransparentProxy(ctx),
-          "obj": lambda: object()}[case["l0"]]
-    ctx.layers = [l0() if i == 0 else object() for i in range(case["n"])]
+    _build_stack(ctx, case["ls"])
     ctx.client.sni = SNI
     ctx.client.alpn = None if case["ca"] is None else unhx(case["ca"])
     ctx.server.alpn = None if case["sa"] is None else unhx(case["sa"])
@@ -315,6 +484,10 @@ def run_impl(case):
     if k == "u":
         pre = None if case["pre"] is None else [unhx(x) for x in case["pre"]]
         return {"up": _hexlist(_upstream_offers([unhx(x) for x in case["o"]], case["h"], pre, case["pk"]))}
+    if k == "n":
+        return _nested(case)
+    if k == "i":
+        return _init_only(case)
     return _handshake(case)
 
 
@@ -329,6 +502,10 @@ def _cob(h):
 
 def _clb(l):
     return clist((_cb(x) for x in l), "bytes")
+
+
+def _ckinds(kinds):
+    return clist(({"http": "LHttpProxy", "tls": "LClientTLS"}.get(k, "LOther") for k in kinds), "layer_kind")
 
 
 def _cres(r):
@@ -351,7 +528,16 @@ def coq_case(case, obs):
             return f"U None (@nil bytes) true [[x00]]"  # unparsable observation: force a mismatch
         pre = "(@None (list bytes))" if case["pre"] is None else f"(Some {_clb(case['pre'])})"
         return f"U {pre} {_clb(case['o'])} {cbool(case['h'])} {_clb(obs['up'])}"
-    return (f"H {cnat(case['n'])} {cbool(case['l0'] == 'http')} {_cob(case['ca'])} {_cob(case['sa'])} {cbool(case['h'])} "
+    if k == "i":
+        return (f"Init {cbool(case['tls'])} {_cob(case['a'])} {_clb(case['o'])} {cbool(obs['tls'])} {_cob(obs['a'])} "
+                f"{_clb(obs['o'])}")
+    if k == "n":
+        if not (obs["ok_o"] and obs["ok_i"]) or obs["ad_c"] == "unset" or not obs["kinds_o"] or not obs["kinds_i"]:
+            return "Init true None (@nil bytes) false None (@nil bytes)"  # handshake did not complete: force a mismatch
+        return (f"Nest {cbool(_S['fixed'])} {_ckinds(obs['kinds_o'])} {_clb(case['oo'])} {cbool(case['h'])} "
+                f"{_ckinds(obs['kinds_i'])} {_cob(case['sa'])} {_clb(case['io'])} {_cob(obs['neg_o'])} "
+                f"{_cob(obs['alpn_init'])} {_clb(obs['offers_init'])} {_cob(obs['ad_c'])} {_cob(obs['neg_i'])}")
+    return (f"H {cbool(_S['fixed'])} {_ckinds(case['ls'])} {_cob(case['ca'])} {_cob(case['sa'])} {cbool(case['h'])} "
             f"{_clb(case['o'])} {_cob(obs['ad_c'])} {_cob(obs['ad_s'])} {cbool(obs['ad_h'])} {_cob(obs['neg'])}")
 
 
@@ -361,7 +547,7 @@ def _reach(s, up):
     return s is None or s == b"" or (up is not None and s in up)
 
 
-def _clauses(offers, s, c, h, up, got, label):
+def _clauses(offers, s, c, h, up, got, label, upstream_clause=True):
     """got: selected protocol as bytes, b'' for none.  c: client_alpn of the AppData."""
     v = []
     if got != b"" and got not in offers:
@@ -369,12 +555,48 @@ def _clauses(offers, s, c, h, up, got, label):
     if c is not None and got not in (c, b""):
         v.append({"key": "client-alpn-ignored", "what": f"{label}: client_alpn={c!r} but selected {got!r}"})
     if _reach(s, up):
-        if c is None and s is not None and got not in (s, b""):
+        if upstream_clause and c is None and s is not None and got not in (s, b""):
             v.append({"key": "upstream-mismatch",
                       "what": f"{label}: upstream negotiated {s!r} (reachable, offers {offers!r}, http2={h}) but client gets {got!r}"})
         if not h and c in (None, HTTP11) and got == H2:
             v.append({"key": "h2-while-disabled",
                       "what": f"{label}: http2=False, offers {offers!r}, server_alpn={s!r}, client_alpn={c!r}: selected h2"})
+    return v
+
+
+def _outer_spec(kinds):
+    """Is TLS being started on the OUTER connection of a secure web proxy?  layers[0] is an HttpProxy and the
+    TLS layer sits directly on it: either the two-layer stack of the unit tests, or layers[1] is the only
+    ClientTLSLayer from index 1 on (what NextLayer builds: HttpProxy, ClientTLSLayer, HttpLayer)."""
+    return (len(kinds) >= 2 and kinds[0] == "http" and (len(kinds) == 2 or kinds[1] == "tls")
+            and "tls" not in kinds[2:])
+
+
+def _outer_clause(kinds, got, offers, label):
+    if _outer_spec(kinds) and got not in (HTTP11, b""):
+        key = "secure-web-proxy-not-http11" if len(kinds) == 2 else "secure-web-proxy-outer-h2-real-stack"
+        return [{"key": key, "what": f"{label}: secure web proxy outer connection (layers {kinds}) negotiated "
+                                     f"{got!r} for offers {offers!r}"}]
+    return []
+
+
+def _oracle_nested(case, obs):
+    oo = [unhx(x) for x in case["oo"]]
+    io = [unhx(x) for x in case["io"]]
+    if not obs["ok_o"] or not obs["ok_i"] or obs["neg_o"] is None or obs["neg_i"] is None:
+        return [{"key": "handshake-failed", "what": f"nested handshakes failed ({obs['err']}) outer offers {oo!r} inner offers {io!r}"}]
+    v = []
+    got_o, got_i = unhx(obs["neg_o"]), unhx(obs["neg_i"])
+    if got_o != b"" and got_o not in oo:
+        v.append({"key": "not-offered", "what": f"nested outer: selected {got_o!r}, offers {oo!r}"})
+    v += _outer_clause(obs["kinds_o"], got_o, oo, "nested outer")
+    s = None if case["sa"] is None else unhx(case["sa"])
+    up = None if obs["up"] is None else [unhx(x) for x in obs["up"]]
+    v += _outer_clause(obs["kinds_i"], got_i, io, "nested inner")
+    if not _outer_spec(obs["kinds_i"]):
+        # the tunnelled connection: nothing of the outer connection may influence it (c=None: no addon preset)
+        v += _clauses(io, s, None, case["h"], up, got_i,
+                      f"nested inner (outer negotiated {got_o!r}, stack {case['stack']})")
     return v
 
 
@@ -412,6 +634,10 @@ def oracle(case, obs):
         if not case["h"] and H2 in up:
             v.append({"key": "upstream-h2-while-disabled", "what": f"http2=False but tls_start_server offers h2 upstream for client offers {offers!r}"})
         return v
+    if k == "i":
+        return []  # mechanism only; the property is checked end to end on the nested cases
+    if k == "n":
+        return _oracle_nested(case, obs)
     # real tls_start_client + handshake
     offers = [unhx(x) for x in case["o"]]
     if obs["neg"] is None:
@@ -421,21 +647,19 @@ def oracle(case, obs):
     s = None if case["sa"] is None else unhx(case["sa"])
     up = None if obs["up"] is None else [unhx(x) for x in obs["up"]]
     v = []
-    outer = case["n"] == 2 and case["l0"] == "http"
-    if outer and got not in (HTTP11, b""):
-        v.append({"key": "secure-web-proxy-not-http11",
-                  "what": f"secure web proxy outer connection negotiated {got!r} for offers {offers!r}"})
+    outer = _outer_spec(case["ls"])
+    v += _outer_clause(case["ls"], got, offers, "tls_start_client + handshake")
     if case["ca"] is not None and not outer:
         # client.alpn preset by an addon: only clause 1 and the client_alpn clause apply
         return v + _clauses(offers, None, c, True, up, got, "handshake")
     if outer:
         # clause 2 is about connections with a known upstream; none exists on the outer connection
-        return v + _clauses(offers, None, c, case["h"], up, got, "handshake")
+        return v + _clauses(offers, s, c, case["h"], up, got, "handshake", upstream_clause=False)
     return v + _clauses(offers, s, c, case["h"], up, got, "handshake")
 
 
 def nontrivial(case, obs):
-    return bool(case["o"])
+    return bool(case["io"] and case["oo"]) if case["k"] == "n" else bool(case["o"])
 
 
 def classify(case, obs):
@@ -454,6 +678,13 @@ def classify(case, obs):
         up = None if obs["up"] is None else [unhx(x) for x in obs["up"]]
         return ["sweep" if k == "k" else "general", "res:" + r, br,
                 "reach" if _reach(s, up) else "unreachable", f"http2={int(case['h'])}"]
-    outer = case["n"] == 2 and case["l0"] == "http"
+    if k == "i":
+        return ["init", "init:tls-over-tls" if case["tls"] else "init:first-layer",
+                "init:alpn-kept" if obs["a"] is not None else "init:alpn-none"]
+    if k == "n":
+        return ["nested", "nested:" + case["stack"], "outer-neg:" + ("none" if obs["neg_o"] == "" else "fail" if obs["neg_o"] is None else "proto"),
+                "inner-neg:" + ("none" if obs["neg_i"] == "" else "fail" if obs["neg_i"] is None else "proto"),
+                "inner-upstream:" + ("unknown" if case["sa"] is None else "known")]
+    outer = _outer_spec(case["ls"])
     return ["handshake", "outer-swp" if outer else "other-stack", "neg:" + ("none" if obs["neg"] == "" else "fail" if obs["neg"] is None else "proto"),
-            f"layers={case['n']}"]
+            f"layers={len(case['ls'])}"]
